@@ -125,6 +125,13 @@ func runC15(c *Ctx) {
 	c15AtomicWriter(c)
 	c15AtomicOption(c)
 	c15GenFlush(c)
+	// the module cache's archive object is requested atomically (shared with C09 MARKER-ATOMIC)
+	c.Rule("ATOMIC-REQUESTED", "objects whose presence means \"complete\" to a reader are written with the atomic option", 1)
+	if pkStore := c.P.Pkg("private/bufpkg/bufmodule/bufmodulestore"); pkStore != nil {
+		cacheTarPutAtomic(c, "ATOMIC-REQUESTED", pkStore)
+	} else {
+		c.Fail("ATOMIC-REQUESTED", "anchor", token.NoPos, "bufmodulestore not found")
+	}
 }
 
 // ruleErrUse records one obligation per error-returning call in scope.
